@@ -39,11 +39,11 @@ impl FontTableProvider for Prov {
     }
 }
 
-fn t(s: &[u8; 4]) -> u32 {
+pub fn t(s: &[u8; 4]) -> u32 {
     u32::from_be_bytes(*s)
 }
 
-fn bei16(v: &mut Vec<u8>, x: i16) {
+pub fn bei16(v: &mut Vec<u8>, x: i16) {
     v.extend_from_slice(&x.to_be_bytes());
 }
 
@@ -51,7 +51,7 @@ fn bei16(v: &mut Vec<u8>, x: i16) {
 
 /// offsets of the MVAR-controlled fields, in the order of process_mvar's arms:
 /// (table, byte offset); table 0 = OS/2, 1 = vhea, 2 = hhea, 3 = post
-const FIELDS: [(u8, usize); 28] = [
+pub const FIELDS: [(u8, usize); 28] = [
     (0, 68), (0, 70), (0, 72), (0, 74), (0, 76), // hasc hdsc hlgp hcla hcld
     (1, 4), (1, 6), (1, 8),                     // vasc vdsc vlgp
     (2, 18), (2, 20), (2, 22),                  // hcrs hcrn hcof
@@ -63,7 +63,7 @@ const FIELDS: [(u8, usize); 28] = [
     (3, 10), (3, 8),                            // unds undo
 ];
 
-fn head_bytes() -> Vec<u8> {
+pub fn head_bytes() -> Vec<u8> {
     let mut v = vec![];
     be16(&mut v, 1);
     be16(&mut v, 0);
@@ -84,7 +84,7 @@ fn head_bytes() -> Vec<u8> {
     v
 }
 
-fn hhea_like(num_metrics: u16) -> Vec<u8> {
+pub fn hhea_like(num_metrics: u16) -> Vec<u8> {
     let mut v = vec![];
     be16(&mut v, 1);
     be16(&mut v, 0);
@@ -106,7 +106,7 @@ fn hhea_like(num_metrics: u16) -> Vec<u8> {
     v
 }
 
-fn maxp_bytes(n: u16) -> Vec<u8> {
+pub fn maxp_bytes(n: u16) -> Vec<u8> {
     let mut v = vec![];
     be32(&mut v, 0x00010000);
     be16(&mut v, n);
@@ -116,7 +116,7 @@ fn maxp_bytes(n: u16) -> Vec<u8> {
     v
 }
 
-fn os2_bytes() -> Vec<u8> {
+pub fn os2_bytes() -> Vec<u8> {
     // version 4, 96 bytes
     let mut v = vec![0u8; 96];
     v[0..2].copy_from_slice(&4u16.to_be_bytes());
@@ -128,13 +128,13 @@ fn os2_bytes() -> Vec<u8> {
     v
 }
 
-fn post_bytes() -> Vec<u8> {
+pub fn post_bytes() -> Vec<u8> {
     let mut v = vec![0u8; 32];
     v[0..4].copy_from_slice(&0x00030000u32.to_be_bytes());
     v
 }
 
-fn name_bytes() -> Vec<u8> {
+pub fn name_bytes() -> Vec<u8> {
     let strs: [(u16, &str); 3] = [(1, "Verif"), (2, "Regular"), (6, "Verif-Regular")];
     let mut v = vec![];
     be16(&mut v, 0);
@@ -155,7 +155,7 @@ fn name_bytes() -> Vec<u8> {
     v
 }
 
-fn cmap_bytes() -> Vec<u8> {
+pub fn cmap_bytes() -> Vec<u8> {
     // version 0, one format-0 subtable mapping everything to glyph 0
     let mut v = vec![];
     be16(&mut v, 0);
@@ -305,7 +305,7 @@ fn glyph_bytes(g: &GSpec) -> Vec<u8> {
 
 // ---------------------------------------------------------------- HVAR / MVAR bytes
 
-fn hvar_bytes(ivs: &[u8], adv: &Option<Vec<u8>>, lsb: &Option<Vec<u8>>) -> Vec<u8> {
+pub fn hvar_bytes(ivs: &[u8], adv: &Option<Vec<u8>>, lsb: &Option<Vec<u8>>) -> Vec<u8> {
     let mut v = vec![];
     be16(&mut v, 1);
     be16(&mut v, 0);
@@ -334,7 +334,7 @@ fn hvar_bytes(ivs: &[u8], adv: &Option<Vec<u8>>, lsb: &Option<Vec<u8>>) -> Vec<u
     v
 }
 
-fn mvar_bytes(ivs: &[u8], recs: &[(u32, u16, u16)]) -> Vec<u8> {
+pub fn mvar_bytes(ivs: &[u8], recs: &[(u32, u16, u16)]) -> Vec<u8> {
     let mut v = vec![];
     be16(&mut v, 1);
     be16(&mut v, 0);
@@ -351,7 +351,7 @@ fn mvar_bytes(ivs: &[u8], recs: &[(u32, u16, u16)]) -> Vec<u8> {
     v
 }
 
-fn opt_hex(s: &str) -> Option<Vec<u8>> {
+pub fn opt_hex(s: &str) -> Option<Vec<u8>> {
     if s == "-" {
         None
     } else {
@@ -389,7 +389,7 @@ fn describe_glyph(g: &Glyph<'_>) -> String {
     }
 }
 
-fn verr(e: VariationError) -> String {
+pub fn verr(e: VariationError) -> String {
     match e {
         VariationError::Parse(p) => format!("err:{}", perr(&p)),
         VariationError::Write(_) => "err:write".to_string(),
@@ -692,7 +692,7 @@ fn gen_var(rng: &mut Rng, ac: usize, np: usize, shared: &[Vec<i16>]) -> (Vec<u8>
     (v, axes_seen)
 }
 
-fn gen_map_bytes(rng: &mut Rng, count: usize, max_outer: u16, max_inner: u16) -> Vec<u8> {
+pub fn gen_map_bytes(rng: &mut Rng, count: usize, max_outer: u16, max_inner: u16) -> Vec<u8> {
     // DeltaSetIndexMap whose entries stay (mostly) inside the store
     let inner_bits = 1 + rng.below(4) as u8; // 1..4 bits -> inner < 16
     let esize = 1 + rng.below(2) as u8; // 1 or 2 bytes
@@ -712,7 +712,7 @@ fn gen_map_bytes(rng: &mut Rng, count: usize, max_outer: u16, max_inner: u16) ->
     v
 }
 
-const MVAR_TAGS: [&[u8; 4]; 28] = [
+pub const MVAR_TAGS: [&[u8; 4]; 28] = [
     b"hasc", b"hdsc", b"hlgp", b"hcla", b"hcld", b"vasc", b"vdsc", b"vlgp", b"hcrs", b"hcrn", b"hcof", b"vcrs", b"vcrn", b"vcof",
     b"xhgt", b"cpht", b"sbxs", b"sbys", b"sbxo", b"sbyo", b"spxs", b"spys", b"spxo", b"spyo", b"strs", b"stro", b"unds", b"undo",
 ];
@@ -827,7 +827,7 @@ pub fn gen_e2e(rng: &mut Rng) -> String {
     )
 }
 
-fn rng_below(rng: &mut Rng, n: usize) -> usize {
+pub fn rng_below(rng: &mut Rng, n: usize) -> usize {
     rng.below(n as u64) as usize
 }
 
@@ -839,13 +839,13 @@ const FONTS: [&str; 3] = [
     "tests/fonts/variable/UnderlineTest-VF.ttf",
 ];
 
-fn font_bytes(name: &str) -> Vec<u8> {
+pub fn font_bytes(name: &str) -> Vec<u8> {
     let repo = std::env::var("VERIF_REPO").unwrap_or_else(|_| "/repo".to_string());
     std::fs::read(format!("{}/{}", repo, name)).unwrap_or_default()
 }
 
 /// own slicing of an sfnt: tag -> table bytes
-fn sfnt_tables(d: &[u8]) -> Vec<(u32, Vec<u8>)> {
+pub fn sfnt_tables(d: &[u8]) -> Vec<(u32, Vec<u8>)> {
     let mut out = vec![];
     if d.len() < 12 {
         return out;
@@ -866,14 +866,14 @@ fn sfnt_tables(d: &[u8]) -> Vec<(u32, Vec<u8>)> {
     out
 }
 
-fn tbl<'a>(ts: &'a [(u32, Vec<u8>)], tag: &[u8; 4]) -> Option<&'a Vec<u8>> {
+pub fn tbl<'a>(ts: &'a [(u32, Vec<u8>)], tag: &[u8; 4]) -> Option<&'a Vec<u8>> {
     ts.iter().find(|(x, _)| *x == t(tag)).map(|(_, d)| d)
 }
 
-fn u16at(d: &[u8], o: usize) -> u16 {
+pub fn u16at(d: &[u8], o: usize) -> u16 {
     u16::from_be_bytes([d[o], d[o + 1]])
 }
-fn u32at(d: &[u8], o: usize) -> u32 {
+pub fn u32at(d: &[u8], o: usize) -> u32 {
     u32::from_be_bytes([d[o], d[o + 1], d[o + 2], d[o + 3]])
 }
 
